@@ -1277,7 +1277,6 @@ func (in *inst) importReturnBool(st *State, ov AVal, truth bool) {
 	}
 }
 
-
 func (in *inst) ordinal(ins ssa.Instruction, kind string) int {
 	m := in.a.ordinals[in.fn]
 	if m == nil {
